@@ -256,10 +256,35 @@ impl Check for C12 {
             Phase { name: "encode: extras repeating a label / naming a populated typed field, in Header, CoseKey, ClaimsSet and nested carriers", cases: scale(if q { 150000 } else { 1000000 }, b), exhaustive: false },
             Phase { name: "encode: every typed label of Header (7, with 1 and 2+ counter-signatures; also with both IV and Partial IV populated), CoseKey (5), ClaimsSet (7) as an extra", cases: 8 + 5 + 7 + 4, exhaustive: true },
             Phase { name: "birthday: 2^18 pairwise distinct labels in a header / key / claims map are not a duplicate, decoding and encoding", cases: 11, exhaustive: true },
+            Phase { name: "decode: maps of 15-66 entries with one entry duplicated, the second occurrence at every position (detectors that switch strategy at a size see every index)", cases: 3 * 12, exhaustive: true },
         ]
     }
     fn run_case(&self, ctx: &mut Ctx, phase: usize, idx: u64) {
         match phase {
+            5 => {
+                let ty = [Ty::Header, Ty::Key, Ty::Claims][(idx % 3) as usize];
+                let n = [15usize, 16, 17, 29, 30, 31, 32, 33, 63, 64, 65, 66][(idx / 3) as usize];
+                // n distinct labels acceptable for the map, in scattered order
+                let mut m: Vec<(Item, Item)> = (0..n).map(|k| {
+                    let l = match ty {
+                        Ty::Claims => if k % 3 == 0 { Item::text(&format!("c{}", k)) } else { Item::int(-65537 - k as i64) },
+                        _ => if k % 3 == 0 { Item::text(&format!("p{}", k)) } else { Item::int(100 + 7 * k as i64) },
+                    };
+                    (l, Item::int(k as i64))
+                }).collect();
+                ctx.rng.shuffle(&mut m);
+                if ty == Ty::Key {
+                    m.insert(0, (Item::int(1), Item::int(2)));
+                }
+                for i in [0usize, 1, m.len() / 2, m.len() - 2, m.len() - 1] {
+                    for pos in 0..=m.len() {
+                        let mut m2 = m.clone();
+                        m2.insert(pos, (m[i].0.clone(), Item::Null));
+                        ctx.count("wide-dup-cases");
+                        offer_dup(ctx, ty, &m2, false);
+                    }
+                }
+            }
             4 => {
                 super::common::birthday_case(ctx, idx);
             }
